@@ -92,9 +92,9 @@ func main() {
 		defer mf.Close()
 		mon := bufio.NewWriter(mf)
 		defer mon.Flush()
-		total, nops := 240, 350
+		total, nops := 960, 350
 		if tier == "thorough" {
-			total, nops = 4000, 600
+			total, nops = 16000, 600
 		}
 		if v := os.Getenv("VERIF_SCHEDULES"); v != "" {
 			total, _ = strconv.Atoi(v)
